@@ -20,6 +20,8 @@ API (keep it this small):
     from gen_prog import Gen, pp
     g = Gen(rng, size, errors); ast = g.program(); text = pp(ast, rng)   # the two stages
 
+    from gen_prog import gen_reuse_program, gen_separator_program, SEPARATORS   # targeted scenario streams (see below)
+
   The AST is nested tuples ('kind', ...); `pp` prints it with random redundant parentheses,
   whitespace (spaces, tabs, LF, CRLF), comments (#, //, /* */) and all string literal forms
   ("..", '..', @"..", @'..', ||| blocks).  Binder names come from a 5-name pool and field
@@ -541,7 +543,10 @@ class Gen:
             if self.r.random() < 0.3:
                 specs.append(('ifspec', ('bool', True)))
             name = ('var', var) if self.r.random() < 0.7 else ('bin', '+', ('var', var), ('str', ''))
-            return ('objcomp', [], name, False, self.gen(c2, ft, depth + 2), specs)
+            plus = (ft in ('num', 'str') or is_arr(ft)) and self.r.random() < 0.3
+            if plus:
+                self.k('objcomp_plus')
+            return ('objcomp', [], name, plus, self.gen(c2, ft, depth + 2), specs)
         return self.gen_obj(ctx, shape, depth, top)
 
     def gen_obj(self, ctx, shape, depth, top, superobj=None, whole=None, force_hidden=()):
@@ -562,6 +567,24 @@ class Gen:
             members.append(('local', nm, None, self.gen(Ctx(vars_, None, None, None, None, None, ctx.in_fun), t, depth + 2)))
             vars_[nm] = t
             self.k('object_local')
+        if self.r.random() < 0.15:
+            # object local in function sugar, used by nobody or by a method field
+            fty = self.fun_type()
+            lctx = Ctx(vars_, None, None, None, None, None, ctx.in_fun)
+            ps = self.params_for(lctx, fty, depth)
+            lname = self.r.choice(VARS)
+            members.append(('local', lname, ps, self.gen_fun_body(lctx, fty, ps, depth + 2)))
+            vars_[lname] = fty
+            self.k('object_local_function')
+        if self.r.random() < 0.12:
+            free = [f for f in FIELDS if f not in whole]
+            if free:
+                fty = self.fun_type()
+                lctx = Ctx(vars_, None, None, None, None, None, ctx.in_fun)
+                ps = self.params_for(lctx, fty, depth)
+                members.append(('field', self.r.choice(['id', 'str']), self.r.choice(free), False, self.r.choice(['::', '::', ':', ':::']) if False else '::',
+                                ps, self.gen_fun_body(lctx, fty, ps, depth + 2)))
+                self.k('method_field')
         order = list(shape)
         self.r.shuffle(order)
         for f in order:
@@ -579,8 +602,11 @@ class Gen:
                 vis = '::'
             else:
                 rv = self.r.random()
-                if rv < 0.08:
+                if rv < 0.2:
                     vis = ':::'
+                elif rv < 0.32:
+                    vis = '::'
+            self.k('sep_' + ('+' if plus else '') + vis)
             if is_obj(t):
                 # nested object: self is the inner object there; $ stays the outermost one
                 val = self.gen_nested(fctx, t, depth + 2)
@@ -866,6 +892,145 @@ def gen_program(rng, size=40, errors=False, plain=False):
     ast = g.program()
     text = pp(ast, rng, plain)
     return text, {'nodes': g.nodes, 'kinds': dict(g.kinds), 'planted': list(g.planted)}
+
+
+# ---------------------------------------------------------------------- scenario streams
+# Two targeted streams, still random in every detail (names, values, orders, spellings):
+#   gen_reuse_program     the SAME object value (bound to a local, returned by a function, taken from an array) is
+#                         observed, extended on either side (repeatedly), and observed again, in shuffled order
+#   gen_separator_program every field separator  : :: ::: +: +:: +:::  x {inherited from a left layer, not inherited}
+#                         x {value, error in the inherited body}, on identifier / string / computed names, method sugar
+#                         and object comprehensions
+SEPARATORS = [':', '::', ':::', '+:', '+::', '+:::']
+
+
+def _ws(r):
+    return r.choice(['', ' ', ' ', '  ', '\n', ' /* c */ ', '\t'])
+
+
+def _lit(r, ty):
+    if ty == 'num':
+        return r.choice(['1', '2', '3', '10', '0.5', '7'])
+    if ty == 'str':
+        return r.choice(['"a"', "'b'", '@"c"', '"é"', '""'])
+    if ty == 'arr':
+        return r.choice(['[1]', '[]', '[1, 2]', '["x"]'])
+    return r.choice(['{p: 1}', '{}', '{q:: 2}', '{p: 1, q: 2}'])
+
+
+def gen_reuse_program(rng):
+    """-> (text, info).  info['kinds'] counts the reuse patterns used."""
+    r = rng
+    kinds = {}
+    def k(n):
+        kinds[n] = kinds.get(n, 0) + 1
+    names = r.sample(['n', 'm', 't', 'u', 'w'], 5)
+    n, m, t, u, w = names
+    c1, c2 = r.choice(['1', '2', '5']), r.choice(['10', '100', '3'])
+    members = ['%s: %s' % (n, c1)]
+    deriv = r.choice(['self.%s + %s' % (n, c2), '$.%s * %s' % (n, c2), 'L + %s' % c2, '[self.%s, %s]' % (n, c2), '"v" + self.%s' % n,
+                      '{ v: $.%s, z: %s }' % (n, c2), 'std.length(std.objectFields(self)) + self.%s' % n])
+    if deriv.startswith('L'):
+        members.append(r.choice(['local L = self.%s' % n, 'local L = $.%s' % n, 'local L = self["%s"]' % n]))
+        k('object_local_over_self')
+    members.append('%s%s %s' % (t, r.choice([':', ':', '::', ':::']), deriv))
+    if r.random() < 0.5:
+        members.append('%s%s self.%s' % (m, r.choice([':', '::']), n)); has_m = True
+    else:
+        has_m = False
+    if r.random() < 0.4:
+        members.append('%s(x):: self.%s + x' % (u, n)); has_u = True; k('method_over_self')
+    else:
+        has_u = False
+    if r.random() < 0.3:
+        members.append(r.choice(['assert self.%s > -1000 : "as"' % n, 'assert std.isNumber(self.%s)' % n])); k('object_assert')
+    r.shuffle(members)
+    obj = '{ ' + ', '.join(members) + ' }'
+    how = r.randrange(4)
+    if how == 0:
+        bind = 'local b = %s;' % obj; k('bound_literal')
+    elif how == 1:
+        bind = 'local mk() = %s; local b = mk();' % obj; k('bound_function_result')
+    elif how == 2:
+        bind = 'local arr = [%s, { %s: 0 }]; local b = arr[0];' % (obj, n); k('bound_array_item')
+    else:
+        bind = 'local b = { } + %s;' % obj; k('bound_sum')
+    exts = ['{ %s: %s }' % (n, r.choice(['2', '20', '-1'])), '{ %s+: 1 }' % n, '{ %s+: %s }' % (t, '1' if not deriv.startswith(('[', '"', '{')) else ('[0]' if deriv.startswith('[') else ('"!"' if deriv.startswith('"') else '{ z: 0 }'))),
+            '{ %s:: 7 }' % n, '{ %s::: 8 }' % n, '{ %s: super.%s + self.%s }' % (w, n, n), '{ local q = super.%s, %s: q + 1 }' % (n, n), '{ }']
+    e1, e2 = r.sample(exts, 2)
+    obs = ['b.%s' % t, 'b.%s' % n, '(b + %s).%s' % (e1, t), '(b + %s + %s).%s' % (e1, e2, t), '(b + (%s + %s)).%s' % (e1, e2, t),
+           'b %s.%s' % (e1, t), '(%s + b).%s' % ('{ %s: 99 }' % n, t), 'b + %s' % e1, 'std.objectFields(b + %s)' % e2,
+           'b == b + { }', '(b + %s) == (b + %s)' % (e1, e1)]
+    if has_m:
+        obs.append('(b + %s).%s' % (e1, m))
+    if has_u:
+        obs += ['b.%s(1)' % u, '(b + %s).%s(1)' % (e1, u)]
+    chosen = r.sample(obs, r.randint(3, min(7, len(obs))))
+    # always: observe first / extend / observe again on the same value, in one of several orders
+    core = [['b.%s' % t, '(b + %s).%s' % (e1, t)], ['(b + %s).%s' % (e1, t), 'b.%s' % t], ['b.%s' % t, '(b + %s).%s' % (e1, t), 'b.%s' % t],
+            ['c.%s' % t, 'b.%s' % t, '(c + %s).%s' % (e2, t), 'c.%s' % t]]
+    pick = r.randrange(len(core))
+    items = core[pick] + chosen
+    if r.random() < 0.5:
+        head, tail = items[:len(core[pick])], items[len(core[pick]):]
+        r.shuffle(tail)
+        items = head + tail
+    pre = bind + (' local c = b + %s;' % e1)
+    k('observe_extend_order_%d' % pick)
+    text = pre + _ws(r) + '[' + (',' + _ws(r)).join(items) + ']'
+    return text, {'nodes': 40, 'kinds': kinds, 'planted': []}
+
+
+def gen_separator_program(rng, sep=None, inherited=None, body=None, form=None):
+    """-> (text, info).  One extension field with separator `sep` whose name is (or is not) defined in the
+    left layer, whose inherited body is a value or an error; info['cell'] = (sep, inherited, body)."""
+    r = rng
+    sep = sep or r.choice(SEPARATORS)
+    inherited = r.random() < 0.6 if inherited is None else inherited
+    body = body or r.choice(['value', 'value', 'error'])
+    plus = sep.startswith('+')
+    ty = r.choice(['num', 'str', 'arr', 'obj'])
+    fname = r.choice(['a', 'f', 'k'])
+    other = r.choice(['b', 'g'])
+    basev = 'error "inh"' if body == 'error' else _lit(r, ty)
+    basesep = r.choice([':', ':', '::', ':::'])
+    if body == 'error' and not inherited:
+        basesep = '::'          # keep the unrelated failing field lazy
+    basefield = '%s%s %s' % (fname if inherited else other, basesep, basev)
+    extra = r.choice(['', ', z: 0', ', %s: 1' % ('zz')])
+    base = '{ %s%s }' % (basefield, extra)
+    if r.random() < 0.25:
+        base = '{ y:: 1 } + ' + base          # the inherited field sits two layers down
+    forms = ['id', 'str', 'computed', 'computed_expr', 'objcomp'] + ([] if plus else ['method'])
+    form = form or r.choice(forms)
+    v = _lit(r, ty)
+    if form == 'id':
+        ext = '{ %s%s %s }' % (fname, sep, v)
+    elif form == 'str':
+        ext = '{ %s%s %s }' % (r.choice(['"%s"', "'%s'", '@"%s"']) % fname, sep, v)
+    elif form == 'computed':
+        ext = '{ ["%s"]%s %s }' % (fname, sep, v)
+    elif form == 'computed_expr':
+        ext = '{ local q = 1, [std.toString("%s") + ""]%s %s }' % (fname, sep, v)
+    elif form == 'method':
+        ext = '{ %s(x)%s %s }' % (fname, sep, v)
+    else:
+        # object comprehensions only allow `:` / `+:`; keep the plus, observe hiddenness through the base
+        ext = '{ [k]%s: %s for k in ["%s"] }' % ('+' if plus else '', v, fname)
+    join = r.choice([' + ', ' + ', ' '])
+    if join == ' ' and form == 'objcomp':
+        join = ' + '
+    third = r.choice(['', '', ' + { %s+: %s }' % (fname, _lit(r, ty))]) if form != 'method' else ''
+    o = '(%s%s%s%s)' % (base, join, ext, third)
+    obs = ['o', 'std.objectFields(o)', 'std.objectFieldsAll(o)', 'std.objectHas(o, "%s")' % fname, 'std.objectHasAll(o, "%s")' % fname]
+    if form == 'method':
+        obs.append('o.%s(1)' % fname)
+    else:
+        obs.append(r.choice(['o.%s', 'o["%s"]']) % fname)
+    r.shuffle(obs)
+    text = 'local o = %s;%s[%s]' % (o, _ws(r), (',' + _ws(r)).join(obs[:r.randint(3, len(obs))] + ([('o.%s' % fname) if form != 'method' else ('o.%s(2)' % fname)])))
+    cell = (sep, 'inherited' if inherited else 'fresh', body)
+    return text, {'nodes': 20, 'kinds': {'separator_form_' + form: 1}, 'planted': ['inherited_error'] if body == 'error' else [], 'cell': cell}
 
 
 if __name__ == '__main__':
